@@ -365,6 +365,13 @@ func (s *Server) answer(q *Msg, e *Entry) *Reply {
 			return &Reply{Status: 200, Body: b}
 		}
 	}
+	if f != nil && f.Kind == FaultOtherQ {
+		// question section and answer are those of another name
+		m := s.BuildAnswer(z, q.ID, Question{Name: f.Text, Type: qu.Type, Class: qu.Class})
+		e.Reply, e.Outcome = m, FaultOtherQ
+		b, _ := s.EncodeReply(m)
+		return &Reply{Status: 200, Body: b}
+	}
 	m := s.BuildAnswer(z, q.ID, qu)
 	e.Reply = m
 	e.Outcome = "answer"
